@@ -18,6 +18,7 @@ var explicitGov = map[string]bool{"skip": true, "conv": true, "map": true, "lite
 // notations get the model's source, skipped leaves must keep their value, everything else is ignored.
 func modelPlan(fp *execmon.FuncPlan, exps []*refmodel.Expect) (judgedLeaves int) {
 	fp.Items = nil
+	fp.OnlyListed = true // leaves the model does not enumerate (inaccessible members, default-governed ones) are not judged here
 	for r := range map[string]bool{"src": true, "x0": true, "x1": true, "x2": true, "x3": true} {
 		fp.RootNames[r] = r
 	}
@@ -25,7 +26,8 @@ func modelPlan(fp *execmon.FuncPlan, exps []*refmodel.Expect) (judgedLeaves int)
 		path := strings.Split(e.Path, ".")
 		switch {
 		case explicitGov[e.Governed] && e.Class == "none":
-			judgedLeaves++ // no item: the leaf must keep its previous value
+			fp.Items = append(fp.Items, execmon.PlanItem{Kind: "keep", Path: path})
+			judgedLeaves++ // the leaf must keep its previous value
 		case explicitGov[e.Governed] && e.Class == "assign" && len(e.Sources) == 1 && !e.AlsoNone():
 			x := ParseCanon(e.Sources[0])
 			if x == nil {
@@ -53,8 +55,22 @@ func RunC06(e *core.Env) int {
 	if e.Tier == "thorough" {
 		n, k = 5000, 6
 	}
+	sampledModel := 0
 	after := func(fi *FuncInfo, exps []*refmodel.Expect) {
 		roleOf := RoleOf(fi)
+		if sampledModel < 2 {
+			var rows []map[string]any
+			for _, ex := range exps {
+				if explicitGov[ex.Governed] {
+					lo := ObserveLeaf(fi, roleOf, ex.Path)
+					rows = append(rows, map[string]any{"leaf": ex.Path, "governed_by": ex.Governed, "model": ex.Class + " " + ex.Reason, "acceptable_sources": ex.Sources, "observed": lo.Kind + " " + lo.Canon})
+				}
+			}
+			if len(rows) >= 2 {
+				sampledModel++
+				rep.Sample(map[string]any{"scenario": fi.Case.S.ID, "function": fi.Plan.Key(), "method_notations": notationsStr(fi.Method.Notations), "model_vs_output": rows}, 4)
+			}
+		}
 		for _, ex := range exps {
 			if !explicitGov[ex.Governed] {
 				continue
